@@ -406,11 +406,11 @@ def main(run, shard=(0, 1)) -> None:
     })
     probe.start()
     thorough = run.tier == 'thorough'
-    n = 8000 if thorough else 300
+    n = 80000 if thorough else 300
     for i in range(n):
         if mine(i, shard):
             one_case(run, run.seed, i)
-    for i in range(2000 if thorough else 120):
+    for i in range(10000 if thorough else 120):
         if mine(i, shard):
             bounded_progress(run, sub_rng(run.seed, 'bounded', i), i)
     probe.report(run)
